@@ -108,6 +108,11 @@ func (e *Eng) evalSpec(st *State, x *SExpr, env map[string]*Val, old map[string]
 		fn := x.Args[0]
 		if fn.Kind == SIdent {
 			switch fn.Name {
+			case "prev":
+				if e.prevState == nil {
+					panic("spec: prev() outside a step clause")
+				}
+				return e.evalSpec(e.prevState, x.Args[1], e.specEnvFromState(e.prevState), old)
 			case "old":
 				ost := st
 				if e.oldState != nil {
